@@ -107,3 +107,13 @@ def apply(reals=False, opaque=False, sqrt_free=False):
         B.RealBasedSymbolicFloat.__pow__ = _pow
         _applied.add('sqrt_free')
     return sorted(_applied)
+
+
+def post_import():
+    """Called after crosshair.core_and_libs is imported.  CrossHair routes calls of functools.lru_cache-wrapped functions
+    around the cache; a cache is exactly the kind of state several properties are about, so the real cache is kept."""
+    from functools import _lru_cache_wrapper
+    from crosshair.core import _PATCH_REGISTRATIONS
+    _PATCH_REGISTRATIONS.pop(_lru_cache_wrapper.__call__, None)
+    _applied.add('real-lru_cache')
+    return sorted(_applied)
